@@ -89,8 +89,9 @@ theorem field_zero_rejected (fs : Fields) : Spec.Protobuf.decode (.struct fs) ze
   zeroNum_rejected fs zeroRec (zeroRec_zeroNum fs)
 
 /-- **L1 as a disagreement**, for every message type of the universe -/
-theorem field_zero_disagree (fs : Fields) (hty : tyOK (.struct fs) = true) : Disagree fs zeroRec :=
-  (disagree_iff fs hty zeroRec).mpr ⟨⟨_, field_zero_accepted fs hty⟩, zeroRec_zeroNum fs⟩
+theorem field_zero_disagree (fs : Fields) (hty : tyOK (.struct fs) = true) (hna : noArr (.struct fs) = true) :
+    Disagree fs zeroRec :=
+  (disagree_iff fs hty hna zeroRec).mpr ⟨⟨_, field_zero_accepted fs hty⟩, zeroRec_zeroNum fs⟩
 
 /-! ## concrete bytes, both sides evaluated -/
 
@@ -159,7 +160,7 @@ def msg : Ty := st [("", .int .u32), ("protobuf:\"zigzag32,2,opt\"", .int .i32),
 -- L2 (outside the universe): message by pointer-to-pointer, empty input:  "-  model ok:nil | reference some:p t 2 i 0 s -"
 #eval both (.ptr inner) "-"
 #guard showM (.ptr inner) [] == "ok:nil" && showS (.ptr inner) [] == "some:p t 2 i 0 s -" && agree (.ptr inner) "0801"
--- L3 (outside the universe): `[2]byte` given 3 bytes:  "0a03010203  model ok:t 1 s 0102 | reference none"
+-- L3 (byte arrays are in `tyOK` now; this is why the converse carries `noArr`, see `ProtoArray.long_array_differs`): `[2]byte` given 3 bytes:  "0a03010203  model ok:t 1 s 0102 | reference none"
 #eval both (st [("", .arr 2 (.int .u8))]) "0a03010203"
 #guard modelOnly (st [("", .arr 2 (.int .u8))]) "0a03010203" && agree (st [("", .arr 2 (.int .u8))]) "0a020102"
   && bothReject (st [("", .arr 2 (.int .u8))]) "0a0101"
